@@ -114,12 +114,17 @@ def c03(res, tier, deadline):
     if tier == "quick":
         runs = [Run("rel", "dispatch", "n=1-5,k=2,d=3,shapes=RR;n=1-6,k=1,d=3,shapes=R;"
                     "n=1-4,k=3,d=3,shapes=RRR;n=1-3,k=4,d=2,shapes=RRRR", "C03", dump_mod=997),
-                Run("dbg", "dispatch", "n=1-4,k=2,d=3,shapes=RR|RNR", "C03", dump_mod=997)]
+                Run("dbg", "dispatch", "n=1-4,k=2,d=3,shapes=RR|RNR", "C03", dump_mod=997),
+                Run("rel", "history", "", "C03", extra="depth=4,start=" + HIST_FULL,
+                    label="rel/plain/history-from-full")]
     else:
         runs = [Run("rel", "dispatch", "n=1-5,k=2,d=4,shapes=RR;n=1-6,k=1,d=4,shapes=R;"
                     "n=1-4,k=3,d=3,shapes=RRR;n=1-4,k=4,d=2,shapes=RRRR;n=6,k=2,d=2,shapes=RR",
                     "C03", dump_mod=9973),
-                Run("dbg", "dispatch", "n=1-5,k=2,d=3,shapes=RR|RNR", "C03", dump_mod=9973)]
+                Run("dbg", "dispatch", "n=1-5,k=2,d=3,shapes=RR|RNR", "C03", dump_mod=9973),
+                Run("rel", "history", "", "C03", extra="depth=5,start=" + HIST_FULL,
+                    label="rel/plain/history-from-full"),
+                Run("rel", "history", "", "C03", extra="depth=6", label="rel/plain/history-from-empty")]
     e1.execute(res, runs, deadline_total=deadline)
 
 
@@ -329,6 +334,37 @@ def c13(res, tier, deadline):
               "n=1-6,set=U,d=1;n=1-4,set=BB,d=1;n=1-3,set=UBQ,d=1;n=1-5,set=UUB,d=0")
     runs = [Run("rel", "encode", sp), Run("rel", "encode", "n=1-4,set=UUB,d=1,pres=full|direct;n=1-3,set=UBT,d=1", variant="asan"),
             Run("dbg", "encode", "n=1-4,set=UUB,d=1", variant="assert")]
+    e1.execute(res, runs, deadline_total=deadline, second_oracle=False)
+
+
+HIST_FULL = "abcdemnwxyzU"
+
+
+@check("C07")
+def c07(res, tier, deadline):
+    res.rule = ("explicit-state BFS over registration histories on one policy: pool = diamond "
+                "lattice of 4 classes with 5 class records (one class registered twice), a unary "
+                "and a binary method, 4 definitions; operations = toggle each record / method / "
+                "definition (the push_back / remove the registration objects perform) and update; "
+                "a state is the history reaching it, replayed in a forked child of a pristine "
+                "process, deduplicated on (live catalogs in order, dirty/valid flags, hash "
+                "parameters, vector sizes, static v-table pointer null-ness); explored from the "
+                "empty state and from the fully registered + updated state. After every update: "
+                "predicted success / unknown_class_error, every legal call and every next vs the "
+                "reference model AND vs a fresh process given the same registrations in the same "
+                "order, a second update changes nothing (outcomes, dispatch data relative to its "
+                "base, slots/strides, hash parameters). Non-trivial = successful updates.")
+    res.assumptions = COMMON_ASSUMPTIONS + [
+        "a method is unregistered only after its definitions; a definition is registered only while its method is",
+        "re-registration models a library reload: the record and its id lists are fresh"]
+    d0, d1 = (5, 4) if tier == "quick" else (6, 5)
+    runs = []
+    for tag in ("rel", "dbg", "int", "dfr", "map"):
+        dd0, dd1 = (d0, d1) if tag in ("rel", "dfr") else (d0 - 1, d1 - 1)
+        runs.append(Run(tag, "history", "", "C07", extra="depth=%d" % dd0,
+                        label="%s/plain/history-from-empty" % tag))
+        runs.append(Run(tag, "history", "", "C07", extra="depth=%d,start=%s" % (dd1, HIST_FULL),
+                        label="%s/plain/history-from-full" % tag))
     e1.execute(res, runs, deadline_total=deadline, second_oracle=False)
 
 
